@@ -68,6 +68,25 @@ let verdict case impl =
       if stress_ok (n_of_hex n) bs && fin = "end" then "ok"
       else "viol stress_ok=false: the received batches are not exactly the tags 0..n-1 in order"
     end
+  | ["Z"; _serial; rounds; concurrent], [toks] ->
+    (* user-visible half of the property: every requested refresh is answered (successfully) and the
+       published cluster state shows the latest topology of the mock cluster *)
+    let rounds = int_of_string ("0x" ^ rounds) and concurrent = int_of_string ("0x" ^ concurrent) in
+    let toks = if toks = "-" then [] else String.split_on_char ',' toks in
+    if List.length toks <> rounds then "diff shape: expected " ^ string_of_int rounds ^ " rounds"
+    else begin
+      let bad = ref "" in
+      List.iteri (fun i tok ->
+          match List.map (fun x -> int_of_string ("0x" ^ x)) (String.split_on_char '/' tok) with
+          | [completed; ok; seen; mock] ->
+            if !bad = "" then begin
+              if completed <> concurrent then bad := Printf.sprintf "round %d: %d of %d refresh_metadata calls were answered" i completed concurrent
+              else if ok <> concurrent then bad := Printf.sprintf "round %d: %d of %d refresh_metadata calls succeeded" i ok concurrent
+              else if seen <> mock then bad := Printf.sprintf "round %d: the cluster state shows %d nodes, the mock cluster has %d" i seen mock
+            end
+          | _ -> if !bad = "" then bad := "bad token " ^ tok) toks;
+      if !bad = "" then "ok" else "viol " ^ !bad
+    end
   | _ -> "error unknown-case"
 
 let () = run_lines verdict
